@@ -53,6 +53,9 @@ pub enum IOp {
     /// `imports.remove(module, name)`); every export of the model names the same function, so
     /// they are all aliases of one another
     RemoveNamed(usize),
+    /// types: give item #k a name (`types.get_mut(id).name = ...`); the signature, which is what the
+    /// collection de-duplicates on, does not change
+    Rename(usize),
 }
 
 pub struct IdObj {
@@ -64,6 +67,8 @@ pub struct IdObj {
     findings: Vec<Finding>,
     /// ids present in iteration that the public API never issued (internal entry types)
     internal: Vec<AnyId>,
+    /// per issued item: its payload when it was last live
+    last_payload: Vec<String>,
 }
 
 pub struct IdSubject {
@@ -114,8 +119,17 @@ fn add(coll: &str, o: &mut IdObj, v: usize) -> (AnyId, String) {
             (AnyId::E(id), format!("elem {}", 1 + s as usize % 3 + v))
         }
         "imports" => {
-            let (_, iid) = m.add_import_global("env", &format!("g{}_{}", s, v), ValType::I32, false, false);
-            (AnyId::I(iid), format!("import env.g{}_{}", s, v))
+            // value 1: the field name of the newest import again, under another module name
+            // (`wasi_unstable.fd_write` next to `wasi_snapshot_preview1.fd_write`)
+            let prev = o.issued.iter().rev().find_map(|(_, p)| p.as_ref().and_then(|p| p.strip_prefix("import env.").map(|x| x.to_string())));
+            let taken = |n: &str| o.issued.iter().any(|(_, p)| p.as_deref() == Some(format!("import js.{}", n).as_str()));
+            let (module, name) = match (v, prev) {
+                // (never the same pair twice: removal by name would then be ambiguous)
+                (1, Some(n)) if !taken(&n) => ("js", n),
+                _ => ("env", format!("g{}_{}", s, v)),
+            };
+            let (_, iid) = m.add_import_global(module, &name, ValType::I32, false, false);
+            (AnyId::I(iid), format!("import {}.{}", module, name))
         }
         "exports" => {
             let id = m.exports.add(&format!("e{}_{}", s, v), o.anchor_func);
@@ -216,7 +230,7 @@ fn get(m: &Module, id: AnyId) -> Option<String> {
             AnyId::L(x) => format!("local {:?}", m.locals.get(x).ty()),
             AnyId::Ty(x) => {
                 let t = m.types.get(x);
-                format!("type {:?}->{:?}", t.params(), t.results())
+                format!("type {:?}->{:?}{}", t.params(), t.results(), t.name.as_ref().map(|n| format!(" name={}", n)).unwrap_or_default())
             }
         })
     }));
@@ -235,7 +249,7 @@ fn iter(coll: &str, m: &Module) -> Vec<(AnyId, String)> {
         "exports" => m.exports.iter().map(|g| (AnyId::X(g.id()), format!("export {}", g.name))).collect(),
         "customs" => m.customs.iter().map(|(id, c)| (AnyId::C(id), format!("custom {} {:?}", c.name(), c.data(&Default::default())))).collect(),
         "locals" => m.locals.iter().map(|g| (AnyId::L(g.id()), format!("local {:?}", g.ty()))).collect(),
-        "types" => m.types.iter().map(|t| (AnyId::Ty(t.id()), format!("type {:?}->{:?}", t.params(), t.results()))).collect(),
+        "types" => m.types.iter().map(|t| (AnyId::Ty(t.id()), format!("type {:?}->{:?}{}", t.params(), t.results(), t.name.as_ref().map(|n| format!(" name={}", n)).unwrap_or_default()))).collect(),
         _ => unreachable!(),
     }
 }
@@ -269,7 +283,8 @@ impl Subject for IdSubject {
             issued.push((AnyId::Ty(ty), Some(format!("type {:?}->{:?}", p, r))));
             internal = m.types.iter().map(|t| AnyId::Ty(t.id())).filter(|i| *i != AnyId::Ty(ty)).collect();
         }
-        Ok(IdObj { m, issued, serial: 0, anchor_func, findings: vec![], internal })
+        let last_payload = issued.iter().map(|(_, p)| p.clone().unwrap_or_default()).collect();
+        Ok(IdObj { m, issued, serial: 0, anchor_func, findings: vec![], internal, last_payload })
     }
     fn ops(&self, hist: &[IOp]) -> Vec<IOp> {
         // replay the reference to know which issued items are live
@@ -293,6 +308,7 @@ impl Subject for IdSubject {
                     live.push(true);
                 }
                 IOp::Delete(k) | IOp::RemoveNamed(k) => live[*k] = false,
+                IOp::Rename(_) => {}
                 IOp::RemoveRaw => {
                     if let Some(k) = (0..live.len()).find(|k| live[*k] && raw[*k]) {
                         live[k] = false;
@@ -310,6 +326,9 @@ impl Subject for IdSubject {
             for (k, l) in live.iter().enumerate() {
                 if *l {
                     ops.push(IOp::Delete(k));
+                    if self.coll == "types" && !hist.iter().any(|h| *h == IOp::Rename(k)) {
+                        ops.push(IOp::Rename(k));
+                    }
                     if by_name {
                         ops.push(IOp::RemoveNamed(k));
                     }
@@ -324,7 +343,8 @@ impl Subject for IdSubject {
                 let (id, payload) = add(self.coll, o, *v);
                 if self.coll == "types" {
                     // de-duplicating set: must return the live id of an equal signature, else a fresh one
-                    let existing = o.issued.iter().find(|(_, p)| p.as_deref() == Some(payload.as_str())).map(|x| x.0);
+                    let sig_of = |p: &str| p.split(" name=").next().unwrap_or("").to_string();
+                    let existing = o.issued.iter().find(|(_, p)| p.as_deref().map(sig_of) == Some(sig_of(&payload))).map(|x| x.0);
                     match existing {
                         Some(e) => {
                             if e != id {
@@ -341,6 +361,7 @@ impl Subject for IdSubject {
                         detail: format!("add returned {:?} which was issued before (then {:?})", id, p),
                     });
                 }
+                o.last_payload.push(payload.clone());
                 o.issued.push((id, Some(payload)));
             }
             IOp::Delete(k) => {
@@ -348,12 +369,24 @@ impl Subject for IdSubject {
                 delete(&mut o.m, id);
                 o.issued[*k].1 = None;
             }
+            IOp::Rename(k) => {
+                if let AnyId::Ty(t) = o.issued[*k].0 {
+                    o.m.types.get_mut(t).name = Some(format!("named{}", k));
+                    if let Some(p) = o.issued[*k].1.clone() {
+                        let np = format!("{} name=named{}", p.split(" name=").next().unwrap_or(""), k);
+                        o.last_payload[*k] = np.clone();
+                        o.issued[*k].1 = Some(np);
+                    }
+                }
+            }
             IOp::RemoveNamed(k) => {
                 let payload = o.issued[*k].1.clone().unwrap_or_default();
                 let res = if self.coll == "exports" {
                     o.m.exports.remove(payload.trim_start_matches("export ")).is_ok()
                 } else {
-                    o.m.imports.remove("env", payload.trim_start_matches("import env.")).is_ok()
+                    let full = payload.trim_start_matches("import ");
+                    let (module, name) = full.split_once('.').unwrap_or(("env", full));
+                    o.m.imports.remove(module, name).is_ok()
                 };
                 if !res {
                     o.findings.push(Finding { sig: format!("remove-by-name-failed:{}", self.coll), detail: format!("removing the live item {:?} by its name returned an error", payload) });
@@ -435,7 +468,7 @@ impl Subject for IdSubject {
             for (p, r) in SIGS {
                 let f = o.m.types.find(p, r);
                 let payload = format!("type {:?}->{:?}", p, r);
-                let live = o.issued.iter().find(|(_, q)| q.as_deref() == Some(payload.as_str())).map(|x| x.0);
+                let live = o.issued.iter().find(|(_, q)| q.as_deref().map(|q| q.split(" name=").next().unwrap_or("")) == Some(payload.as_str())).map(|x| x.0);
                 if f.map(AnyId::Ty) != live {
                     fs.push(Finding { sig: "types-find".into(), detail: format!("find({}) = {:?}, live id = {:?}", payload, f, live) });
                 }
@@ -458,22 +491,28 @@ impl Subject for IdSubject {
                     let name = format!("g{}", format!("{:?}", p).len()); // placeholder to keep the borrow simple
                     let _ = name;
                     if let Some(p) = p {
-                        let n = p.trim_start_matches("import env.");
-                        let f = o.m.imports.find("env", n);
-                        if f != Some(*x) {
-                            fs.push(Finding { sig: "find-by-name:imports".into(), detail: format!("find(env,{}) = {:?}, expected {:?}", n, f, x) });
+                        let full = p.trim_start_matches("import ");
+                        let (module, n) = full.split_once('.').unwrap_or(("env", full));
+                        let f = o.m.imports.find(module, n);
+                        // several live imports may carry the same names: `find` returns the first
+                        let first_live = o.issued.iter().find(|(_, q)| q.as_deref() == Some(p.as_str())).map(|q| q.0);
+                        if f.map(AnyId::I) != first_live && f != Some(*x) {
+                            fs.push(Finding { sig: "find-by-name:imports".into(), detail: format!("find({},{}) = {:?}, expected {:?}", module, n, f, x) });
                         }
                     }
                 }
             }
         }
-        let canon: Vec<(bool, &Option<String>)> = o.issued.iter().map(|(_, p)| (p.is_some(), p)).collect();
+        // deleted items keep what they last looked like in the key: two histories that differ in
+        // what was done to an item before it was deleted are different states (an implementation may
+        // well keep something of a deleted item behind - that is what the property forbids)
+        let canon: Vec<(bool, &Option<String>, Option<&String>)> = o.issued.iter().enumerate().map(|(k, (_, p))| (p.is_some(), p, o.last_payload.get(k))).collect();
         (wmodel::fnv(format!("{:?}", canon).as_bytes()), fs)
     }
 }
 
 fn hist_json(h: &[IOp]) -> serde_json::Value {
-    json!(h.iter().map(|o| match o { IOp::Add(v) => format!("add {}", v), IOp::Delete(k) => format!("delete #{}", k), IOp::RemoveRaw => "remove_raw".to_string(), IOp::RemoveNamed(k) => format!("remove-named #{}", k) }).collect::<Vec<_>>())
+    json!(h.iter().map(|o| match o { IOp::Add(v) => format!("add {}", v), IOp::Delete(k) => format!("delete #{}", k), IOp::RemoveRaw => "remove_raw".to_string(), IOp::RemoveNamed(k) => format!("remove-named #{}", k), IOp::Rename(k) => format!("rename #{}", k) }).collect::<Vec<_>>())
 }
 fn hist_of(v: &serde_json::Value) -> Vec<IOp> {
     v.as_array()
@@ -481,7 +520,9 @@ fn hist_of(v: &serde_json::Value) -> Vec<IOp> {
             a.iter()
                 .filter_map(|x| {
                     let s = x.as_str()?;
-                    if let Some(k) = s.strip_prefix("remove-named #") {
+                    if let Some(k) = s.strip_prefix("rename #") {
+                        Some(IOp::Rename(k.parse().ok()?))
+                    } else if let Some(k) = s.strip_prefix("remove-named #") {
                         Some(IOp::RemoveNamed(k.parse().ok()?))
                     } else if s == "remove_raw" {
                         Some(IOp::RemoveRaw)
